@@ -2265,6 +2265,15 @@ def unify_gen_shape():
                 arms.append(",".join(cs) if cs else "_")
                 acc = None
     msgs = [m.strip().rstrip(":") for m in re.findall(r'format!\(\s*"([^"{]*)', t[o0:o1]) + re.findall(r'format!\(\s*"([^"{]*)', reg)]
+    # the diagnostics of Typer::solve and instantiate_struct_field_ty (full format strings, source order)
+    try:
+        i0, i1 = t.index("fn instantiate_struct_field_ty("), t.index("fn decompose_struct_type(")
+        s0 = t.index("    pub fn solve(&mut self")
+    except ValueError:
+        raise Exception("anchor lost: instantiate_struct_field_ty / decompose_struct_type / Typer::solve")
+    smsgs = re.findall(r'format!\(\s*"([^"]*)"', t[i0:i1]) + re.findall(r'format!\(\s*"([^"]*)"', t[s0:n0])
+    if "while changed {" not in t[s0:n0] or "let mut changed = true;" not in t[s0:n0]:
+        raise Exception("anchor lost: the `while changed` loop of Typer::solve")
     if len(arms) < 10 or len(msgs) < 5:
         raise Exception(f"unify.rs: unexpected shape (arms={len(arms)}, messages={len(msgs)})")
     q = lambda s: '"' + s.replace("\\", "\\\\").replace('"', '\\"') + '"'
@@ -2276,6 +2285,9 @@ def unifyArms : List String := [{", ".join(q(a) for a in arms)}]
 
 /-- the diagnostics `occurs` and `unify` push, in source order (text before the first placeholder) -/
 def unifyMessages : List String := [{", ".join(q(m) for m in msgs)}]
+
+/-- the diagnostics of `instantiate_struct_field_ty` and `Typer::solve`, in source order (format strings) -/
+def solveMessages : List String := [{", ".join(q(m) for m in smsgs)}]
 
 end Goml.Gen
 """)
